@@ -290,7 +290,11 @@ func RunHistoryCase(cs map[string]any, id int, seed int64) Result {
 		if wid == "B" {
 			sd = s1 + 1
 		}
-		c := gen.Build(toWorld(worlds[wid]), gen.Params{Seed: sd})
+		if ww := toWorld(worlds[wid]); ww.Get("src") == "intel" {
+			built[wid] = IntelConcrete(ww)
+			return built[wid]
+		}
+		c := gen.Build(toWorld(worlds[wid]), gen.Params{Seed: sd, MutBit: int((int64(id) * 2654435761) & 0x7fffffff)})
 		if c.Unrealizable == "" {
 			if err := gen.SelfCheck(c); err != nil {
 				panic(fmt.Sprintf("GENERATOR SELF-CHECK FAILED history case %d world %s: %v", id, wid, err))
